@@ -1070,7 +1070,11 @@ def check(run):
         "bundles, JSON text for the filesystem store, load_from_file for the memory store; STIX 2.0 and 2.1 SDOs/SROs, "
         "marking definitions, SCOs, a registered custom type, unregistered dictionary-kept content; 1-4 ids with "
         "2-5 instants drawn from a boundary palette in four spellings and as datetime objects in several zones; "
-        "upper-case hex ids for dictionary-kept content; re-adds; malformed items; a hypothesis-violating stream judged per id) interleaved with get/all_versions/query/count and "
+        "upper-case hex ids for dictionary-kept content; dictionary-kept ids that never carry `modified`; versions of one id "
+        "differing in created / created_by_ref; re-adds; malformed items; a hypothesis-violating stream judged per id; "
+        "filesystem stores opened with an absolute or a relative directory, with chdir and reopen steps; 15%% of the cases "
+        "with the worker under another POSIX time zone; queries with every operator on type / id / x_pay / modified / "
+        "created / created_by_ref incl. `in` lists of 9..101 names and every timestamp spelling) interleaved with get/all_versions/query/count and "
         "save/load, run on MemoryStore and FileSystemStore (temp dir, with and without bundlify) and on the Coq model; "
         "non-trivial = some id has two or more versions and some read returns an object" % max_adds)
     with common.Lock():
